@@ -56,6 +56,11 @@ def main(argv):
             open(d2, "w").write(text)
             rc0, o0 = sh(f"{PY} {d2}", cwd=tmp, env=env)
             rc, o = sh(f"git -C {wt} apply {patch}")
+            if rc:   # the tree moved on (a fix commit) since the author's worktree was made
+                rc, o2 = sh(f"git -C {wt} apply --3way {patch}")
+                o += o2
+                if not rc:
+                    sh(f"git -C {wt} reset -q")
             if rc:
                 print(pid, k, "patch does not apply:", o[-200:])
                 continue
